@@ -935,4 +935,93 @@ theorem c11_unplaced_new_location_has_no_number (b : List RLoc) (ress : List Res
   rw [hs] at hr
   cases hr
 
+/-! ### new locations: slot or raise, fresh and pairwise different -/
+
+/-- **a new location is written as the slot holding it, or the save raises — under every allocator outcome**: for
+every batch with pairwise different identities, every result list the allocator can return for it, and every new
+(index-less) location of the batch, the encoder either writes the slot `s` the rebuild put that very location on
+(and the emitted table holds it there), or finds no number at all (`KeyError`: the location table was full and the
+editor skipped it).  There is no third outcome — in particular no iteration order can make a reference to a new
+location come out as the number of another location. -/
+theorem c14_new_location_its_slot_or_raises (b : List RLoc) (ress : List Res)
+    (hu : ((placementOf b).map (·.uid)).Nodup)
+    (k : Nat) (hk : k < (placementOf b).length) (hk' : k < ress.length)
+    (hnone : (placementOf b)[k].idx = none)
+    (ctx : EncCtx)
+    (hctx : ctx.locIds = (placedOf (placementOf b) ress).filterMap fun (l, uid) => l.idx.map fun i => (uid, i)) :
+    (∃ s, ress[k] = .placed s ∧ locId ctx (placementOf b)[k] = some s ∧
+        ({ (placementOf b)[k] with idx := some s } : RLoc) ∈ (placedOf (placementOf b) ress).map (·.1)) ∨
+    (ress[k] = .skipped ∧ locId ctx (placementOf b)[k] = none) := by
+  cases hr : ress[k] with
+  | placed s =>
+    have := c04_new_location_reference_is_its_slot b ress hu k hk hk' s hr hnone ctx hctx
+    exact .inl ⟨s, rfl, this.1, this.2⟩
+  | skipped =>
+    exact .inr ⟨rfl, c11_unplaced_new_location_has_no_number b ress hu k hk hk' hr hnone ctx hctx⟩
+
+
+theorem placed_mem_placedSlots : ∀ (ress : List Res) (k : Nat) (hk : k < ress.length) (s : Nat),
+    ress[k] = .placed s → s ∈ placedSlots ress := by
+  intro ress
+  induction ress with
+  | nil => intro k hk; simp at hk
+  | cons r rs ih =>
+    intro k hk s h
+    cases k with
+    | zero => simp only [List.getElem_cons_zero] at h; subst h; simp [placedSlots]
+    | succ k =>
+      have := ih k (by simpa using hk) s (by simpa using h)
+      cases r <;> simp [placedSlots, this]
+
+theorem placedSlots_position_unique : ∀ (ress : List Res), (placedSlots ress).Nodup →
+    ∀ (k k' : Nat) (hk : k < ress.length) (hk' : k' < ress.length) (s : Nat),
+      ress[k] = .placed s → ress[k'] = .placed s → k = k' := by
+  intro ress
+  induction ress with
+  | nil => intro _ k _ hk; simp at hk
+  | cons r rs ih =>
+    intro hnd k k' hk hk' s h h'
+    have hnd' : (placedSlots rs).Nodup := by
+      cases r with
+      | placed i => simp only [placedSlots] at hnd; exact (List.nodup_cons.mp hnd).2
+      | skipped => simpa [placedSlots] using hnd
+    cases k with
+    | zero =>
+      cases k' with
+      | zero => rfl
+      | succ k' =>
+        simp only [List.getElem_cons_zero] at h
+        subst h
+        have hm := placed_mem_placedSlots rs k' (by simpa using hk') s (by simpa using h')
+        simp only [placedSlots] at hnd
+        exact absurd hm (List.nodup_cons.mp hnd).1
+    | succ k =>
+      cases k' with
+      | zero =>
+        simp only [List.getElem_cons_zero] at h'
+        subst h'
+        have hm := placed_mem_placedSlots rs k (by simpa using hk) s (by simpa using h)
+        simp only [placedSlots] at hnd
+        exact absurd hm (List.nodup_cons.mp hnd).1
+      | succ k' =>
+        have := ih hnd' k k' (by simpa using hk) (by simpa using hk') s (by simpa using h) (by simpa using h')
+        omega
+
+/-- **new locations get fresh, pairwise different slots** (the allocator's soundness, read position by position at the
+level of the location rebuild): whenever the allocation of a save succeeds, the slot handed to any element of the
+batch is not a slot the stored table occupies, and two different elements of the batch never receive the same slot.
+With `c14_new_location_its_slot_or_raises` and `c11_emitted_location_reference_is_its_slot`: two saves of one map
+under different iteration orders differ at most by a renaming of the new slots, applied to the table and to every
+reference alike. -/
+theorem c14_new_location_slots_fresh_and_distinct (cfg : RichCfg) (table b : List RLoc)
+    {ress : List Res} {st : AllocSt}
+    (h : allocate cfg.mrgnCfg (table.filterMap (·.idx)) (reqsOf b) = .ok (ress, st))
+    (k : Nat) (hk : k < ress.length) (s : Nat) (hp : ress[k] = .placed s) :
+    s ∉ table.filterMap (·.idx) ∧
+    ∀ (k' : Nat) (hk' : k' < ress.length), ress[k'] = .placed s → k' = k := by
+  have hs := Props.C09.c09_sound cfg.mrgnCfg _ _ h
+  refine ⟨(hs.2 s (placed_mem_placedSlots ress k hk s hp)).1, ?_⟩
+  intro k' hk' hp'
+  exact placedSlots_position_unique ress hs.1 k' k hk' hk s hp' hp
+
 end Richchk.Props.C14
